@@ -328,8 +328,23 @@ def run_job(job: Dict[str, Any]) -> Dict[str, Any]:
     return out
 
 
+def _redirect_c_stderr() -> None:
+    """z3 prints internal diagnostics ("ASSERTION VIOLATION / File: ... lar_solver.cpp") straight to the C-level
+    stderr of the worker; the worker is then restarted and the case reported as inconclusive.  Keep that text out of
+    the check's own output (a line containing the word VIOLATION must only ever be the engine's verdict line)."""
+    try:
+        work = os.path.join(VERIF, ".work")
+        os.makedirs(work, exist_ok=True)
+        fd = os.open(os.path.join(work, "worker_stderr.log"), os.O_WRONLY | os.O_CREAT | os.O_APPEND, 0o644)
+        os.dup2(fd, 2)
+        os.close(fd)
+    except OSError:
+        pass
+
+
 def worker_main(conn, module: str):
     try:
+        _redirect_c_stderr()
         sys.setrecursionlimit(10000)
         _install_worker_patches()
         importlib.import_module(module)
